@@ -35,6 +35,20 @@ func (s *ShardSystem) Apply(raw json.RawMessage) []seqx.Viol {
 	if !ok {
 		return []seqx.Viol{{Sig: "harness-unknown-symbol", Detail: ref.Name}}
 	}
+	if op.Kind == "queries" {
+		// a round of searches in the middle of a history: stored data does not
+		// change, what the shared caches hold does (a flat search scans and loads
+		// every vector, a graph search loads nodes, filters and text load term sets).
+		// What the searches answer here is checked at the state that ends with the
+		// previous batch; this step only matters for what follows it.
+		if s.Battery != nil {
+			keep := s.Obs
+			s.Battery(s)
+			s.Obs = keep
+		}
+		s.Applied = append(s.Applied, op)
+		return nil
+	}
 	exp := s.M.Apply(op)
 	tag := ""
 	if exp.Reject {
